@@ -219,7 +219,7 @@ Qed.
 Theorem enc_op_spec fs un op buf : op_ok R sub_ok fs op = true ->
   enc_op rec fs un op buf = Ok (buf ++ sp_op R fs un op).
 Proof.
-  intros Hok. destruct op as [k always rep ptr slot num|slot num idx|slot num idx|slot num idx|slot num idx|always slot num|slot num|c ptr rep slot num|slot num|slot inner|];
+  intros Hok. destruct op as [k always rep ptr slot num|slot num idx|slot num idx|slot num idx|slot num idx|slot num idx|always slot num|slot num|c ptr rep slot num|slot num|slot inner|];
     cbn [enc_op sp_op op_ok] in *.
   - (* EScalar *)
     apply andb_true_iff in Hok. destruct Hok as [Hn Hv]. destruct rep.
@@ -249,6 +249,10 @@ Proof.
     apply rfold_app. intros x b Hx. pose proof (forallb_In _ _ _ Hv Hx) as Hx'. apply andb_true_iff in Hx'. destruct Hx' as [Hx' _]. apply andb_true_iff in Hx'. destruct Hx' as [Hs Hl].
     apply (enc_always_message_spec num _ b (fst (R idx (opt_of_msg x))) (snd (R idx (opt_of_msg x)))); [assumption|apply lenb_ok; assumption|].
     intros b0. apply Hrec. assumption.
+  - (* EMsgAlwaysVal *)
+    split_and Hok. set (m := opt_of_msg (slot_get fs slot)) in *.
+    apply (enc_always_message_spec num _ buf (fst (R idx m)) (snd (R idx m))); [assumption|apply lenb_ok; assumption|].
+    intros b0. apply Hrec. assumption.
   - (* EEnum *)
     apply andb_true_iff in Hok. destruct Hok as [Hn Hv]. f_equal. apply enc_single_sp; assumption.
   - (* ERepEnum *)
@@ -266,8 +270,11 @@ Proof.
   - discriminate Hok.
   - (* EOneof *)
     destruct (slot_get fs slot) as [| |[x|]| |[m|]| | | |]; try (rewrite app_nil_r; reflexivity);
-      destruct inner as [k always rep ptr sl2 num|sl2 num idx| | | |always sl2 num| |c ptr rep sl2 num| | |]; try (rewrite app_nil_r; reflexivity).
+      destruct inner as [k always rep ptr sl2 num|sl2 num idx| | | |sl2 num idx|always sl2 num| |c ptr rep sl2 num| | |]; try (rewrite app_nil_r; reflexivity).
     + apply andb_true_iff in Hok. destruct Hok as [Hn Hv]. f_equal. apply enc_single_sp; assumption.
+    + destruct x as [| | | | |fs1 u1| | |]; try (rewrite app_nil_r; reflexivity). split_and Hok.
+      apply (enc_always_message_spec num _ buf (fst (R idx (Some (fs1, u1)))) (snd (R idx (Some (fs1, u1))))); [assumption|apply lenb_ok; assumption|].
+      intros b0. apply Hrec. assumption.
     + apply andb_true_iff in Hok. destruct Hok as [Hn Hv]. f_equal. apply enc_single_sp; assumption.
     + split_and Hok. apply enc_cast_elem_sp; assumption.
     + split_and Hok.
